@@ -39,6 +39,10 @@ T = [
      "        if self.0 {\n            task::Poll::Ready(())", "        if !self.0 {\n            task::Poll::Ready(())"),
     ("c04_yieldnow_lost_wake", "C04/R6", "src/future.rs",
      "            cx.waker().wake_by_ref();\n", "            let _ = cx;\n"),
+    ("c04_ytr_ignores_yield", "C04/R6", "src/future.rs",
+     "        task::ready!(this.r#yield.poll_unpin(cx));", "        let _ = this.r#yield.poll_unpin(cx);"),
+    ("c04_yieldnow_pending_forever", "C04/R6", "src/future.rs",
+     "        if self.0 {\n            task::Poll::Ready(())\n        } else {", "        if self.0 && cx.waker().will_wake(cx.waker()) {\n            task::Poll::Pending\n        } else if self.0 {\n            task::Poll::Ready(())\n        } else {"),
     ("c04_is_finished_ignores_queues", "C04/R2", B,
      "                || self.scenarios.lock().await.values().all(Vec::is_empty))", "                || self.scenarios.lock().await.is_empty())"),
     ("c04_enqueue_drops_rules", "C04/R1", B,
